@@ -2,7 +2,7 @@ SPECIFICATION Spec
 CONSTANTS
   Configs <- TheConfigs
   ScriptLen = 2
-  LongScripts = TRUE
+  LongScripts = FALSE
   Ops <- AllOps
   Formats = {"xml"}
   Comps = {"plain", "gzip", "bzip2"}
